@@ -279,6 +279,8 @@ const MUTATIONS: &[&str] = &[
     // in the scope of EVERY operation that spreads it)
     "shared-fragment-var-undeclared", "shared-fragment-var-incompatible", "shared-fragment-var-nullable",
     "shared-fragment-var-undeclared", "shared-fragment-var-incompatible",
+    // Operation Name Uniqueness is per document, whatever the operation types
+    "dup-op-name-cross-kind", "dup-op-name-cross-kind",
 ];
 
 fn inject(rng: &mut Rng, s: &Schema, doc: &mut Doc, kind: &str) -> Option<Fault> {
@@ -292,6 +294,25 @@ fn inject(rng: &mut Rng, s: &Schema, doc: &mut Doc, kind: &str) -> Option<Fault>
             o.shorthand = false;
             doc.ops.push(o);
             Some(Fault { rule: "unique_op_names", what: format!("operation {} duplicated", i), site: Site::Doc })
+        }
+        "dup-op-name-cross-kind" => {
+            // a mutation / subscription that takes the name of an existing operation of another kind, before or after it
+            let mut kinds: Vec<&str> = vec![];
+            if s.mutation.is_some() { kinds.push("mutation"); }
+            if s.subscription.is_some() { kinds.push("subscription"); }
+            kinds.push("query");
+            let i = rng.below(doc.ops.len());
+            let other: Vec<&str> = kinds.into_iter().filter(|k| *k != doc.ops[i].kind).collect();
+            if other.is_empty() { return None; }
+            let k = (*rng.pick(&other)).to_string();
+            if doc.ops[i].name.is_none() { doc.ops[i].name = Some("OpZ".into()); doc.ops[i].shorthand = false; }
+            if doc.ops.iter().any(|o| o.name.is_none()) { return None; }
+            let name = doc.ops[i].name.clone();
+            let new = Op { kind: k.clone(), name, vars: vec![], dirs: vec![], shorthand: false,
+                           sel: vec![Sel::Field { alias: None, name: "__typename".into(), args: vec![], dirs: vec![], sub: None }] };
+            let at = if rng.chance(1, 2) { i } else { i + 1 };
+            doc.ops.insert(at, new);
+            Some(Fault { rule: "unique_op_names", what: format!("a {} named like the {} at index {}", k, doc.ops[if at == i { i + 1 } else { i }].kind, i), site: Site::Doc })
         }
         "anonymous-among-many" => {
             let i = rng.below(doc.ops.len());
@@ -864,6 +885,9 @@ fn corpus() -> Vec<(&'static str, &'static str, Vec<&'static str>, &'static str)
         (S1, "query Q { x: n(x: 1) x: a { id } }\n", vec![], "a leaf and an object under one response key (not checked: Field Selection Merging)"),
         // a fragment shared by two operations is validated in the scope of each of them
         (S1, "query A($n: Int!) { a { ...UP } }\nquery B { a { ...UP } }\nquery C($n: String) { a { ...UP } }\nquery D($n: Int) { a { ...UQ } }\nfragment UP on A { a(q: {must: $n}) }\nfragment UQ on A { ...UP }\n", vec![], "shared fragment using a variable: undeclared in B, wrong type in C, nullable in D (through UQ)"),
+        // Operation Name Uniqueness (5.2.1.1) is per document: a query and a subscription may not share a name
+        (S1, "query A { a { id } }\nfragment F on A { id }\nsubscription A { s }\n", vec![], "a query and a subscription with one name, a fragment in between"),
+        (S1, "subscription A { s }\nquery A { a { id } }\n", vec![], "a subscription and a query with one name"),
     ]
 }
 
